@@ -157,6 +157,19 @@ type scenario struct {
 	oldTree map[string]string
 	newTree map[string]string
 	desc    string
+	// runDir: the directory the goat commands are started in when it is not dir itself (a symbolic
+	// link to dir: the project entered through a symlinked path)
+	runDir string
+	// sideOnly: Go files of a diverged history that only the side branch (the old revision) edited,
+	// by appending a function: every line of the new revision's file stands in the old one
+	sideOnly map[string]bool
+}
+
+func (s *scenario) rdir() string {
+	if s.runDir != "" {
+		return s.runDir
+	}
+	return s.dir
 }
 
 func pick[T any](r *rand.Rand, xs []T) T { return xs[r.Intn(len(xs))] }
@@ -231,6 +244,17 @@ func (c *e2eCtx) newScenario(i int, r *rand.Rand, o proj.Opts, mkcfg func(r *ran
 		side := map[string]string{}
 		for k, v := range s.oldTree {
 			side[k] = v
+		}
+		// … and one function appended to a library file that the new revision leaves as it was at
+		// the fork: the file differs between the two revisions, yet the new one has no line of its own
+		for _, k := range sortedKeys(s.oldTree) {
+			if strings.HasSuffix(k, ".go") && !strings.HasSuffix(k, "_test.go") && strings.HasPrefix(k, "pkg/") && !strings.Contains(k, "testdata") &&
+				s.newTree[k] == s.oldTree[k] && strings.HasSuffix(s.oldTree[k], "}\n") && !strings.Contains(s.oldTree[k], "+goat:") && !strings.Contains(s.oldTree[k], "var asset") {
+				side[k] = s.oldTree[k] + "\n// SideAppended was added on the side branch after the fork.\nfunc SideAppended(a int) int {\n\ta -= 2\n\treturn a\n}\n"
+				s.sideOnly = map[string]bool{k: true}
+				c.count("history:diverged-side-append")
+				break
+			}
 		}
 		side["pkg/l0/zz_side_only.go"] = "package l0\n\n// SideOnly exists only on the side branch.\nfunc SideOnly(a int) int {\n\ta--\n\treturn a\n}\n"
 		if _, err = proj.Git(s.dir, 0, "checkout", "-q", "-b", "side"); err != nil {
